@@ -251,3 +251,79 @@ def c12(run):
     run.cov['rule'] = ('12 AEAD algorithms x random keys/nonces x plaintext lengths around block boundaries x AAD lengths 0..100 (CCM: 65279/65280 crossing the length encodings; thorough: 65278..70000, plaintext 65535/70000), '
                        'ciphertexts compared with the Gallina references; per message: bit flips of ciphertext/tag/nonce/aad/key, truncation, extension; nonce lengths 0..17; key sizes 0..40; plaintexts beyond the CCM limit')
     return D.finish(run, 'proof')
+
+
+# ------------------------------------------------------------------ message layer: C08, C04, C02, C03
+
+MSG_TRUST = ['Gallina CBOR codec coq/Lib/Cbor.v (encode / dec), Go-value decoding coq/Model/CborGo.v and wire-struct decoding coq/Model/Wire.v model fxamacker/cbor v2.7.0 as configured by key/cbor.go; compared with the implementation by the cbor / msg / msgparts streams, not verified',
+             'transparent fake primitives of the msg stream (signature = secret || data; ciphertext = secret || nonce || aad || plaintext) are computed on both sides',
+             'context strings, element lists, prefixes and arities of the structures are read from the source by the translator (Gen/StructsGen.v, Gen/ShapesGen.v)']
+
+
+@check('C08')
+def c08(run):
+    run.trusted += MSG_TRUST
+    run.assumptions += ['byte strings, arrays and maps are within the decoder limits (length < 2^63, at most 131072 elements, nesting at most 32): hypotheses `encodable` / `fits`',
+                        'maps have pairwise distinct encoded keys (hypothesis `kd`): a Go map cannot hold a key twice; the same label under two Go integer types is refused by CoseMap.MarshalCBOR since 75d9c93 (nested map values: known finding F17)',
+                        'time.Time values (tags 0 / 1) and maps keyed by something other than text or integers are kept opaque by the model']
+    D.prove(run, extra_targets=['Model/CborCorr.vo', 'Model/MsgWireCorr.vo'])
+    rc, o = D.harness_build()
+    if rc != 0:
+        run.broke('harness build', o[-1500:])
+    else:
+        D.correspond(run, 'cbor', [], reference_theorem='C08_decode_encode / C08_duplicate_key_refused / C08_indefinite_refused (model of the CBOR library)')
+        D.correspond(run, 'msgparts', [], reference_theorem='C08_labels / C08_wrong_arity_refused (header maps, recipients, KDF contexts)')
+        D.correspond(run, 'c08probe', [])
+    run.cov['rule'] = ('generated CBOR items (all head widths, any map order, depth to 3) decoded and re-encoded; per item one malformation: trailing bytes, truncation, indefinite length at a random position, reserved head, duplicate keys (also after integer normalisation, nested up to 2 levels), invalid UTF-8, nesting 30..34, counts beyond the limits, random bytes; '
+                       'header maps with labels of several Go integer types, insertion orders and nested values encoded 3 ways and compared; recipients (one nesting level, two refused), KDF contexts with nil/empty/non-empty members, label range probes; wrong-typed payload members of COSE_Mac0')
+    return D.finish(run, 'proof')
+
+
+@check('C04')
+def c04(run):
+    run.trusted += MSG_TRUST + ['stream msgreal: recording wrappers around the real Signer / Verifier / MACer / Encryptor of all 24 algorithms; the expected structure is written by the harness\'s own CBOR writer']
+    run.assumptions += ['payload present (Some): a nil payload is written as CBOR null in the structure, as it is on the wire']
+    D.prove(run, extra_targets=['Model/MsgWireCorr.vo'])
+    rc, o = D.harness_build()
+    if rc != 0:
+        run.broke('harness build', o[-1500:])
+    else:
+        D.correspond(run, 'msg', [], reference_theorem='C04_*_structure (the model computes the structure; the fake signature embeds the bytes the implementation signed)')
+        D.oracle(run, 'msgreal', [])
+    run.cov['rule'] = ('6 message kinds x fake keys x header maps (int/text labels, nested values) x payload kinds (nil, empty, bytes up to 70000, RawMessage, typed) x external data (nil, empty, up to 256 bytes) produced and consumed; '
+                       'foreign encodings with non-shortest heads / unsorted protected maps / explicit empty map, consumed and re-encoded; 24 real algorithms with recording wrappers: signed / MACed / AAD bytes compared with an independently written RFC 9052 structure on both directions')
+    return D.finish(run, 'proof')
+
+
+@check('C02')
+def c02(run):
+    run.trusted += MSG_TRUST
+    run.assumptions += ['valid_only_for: a signature / tag is accepted only for the bytes it was computed over (unforgeability of the algorithm; exactness of HMAC / AES-MAC verification is C11)',
+                        'byte strings shorter than 2^63 (hypotheses `small`)']
+    D.prove(run, extra_targets=['Model/MsgWireCorr.vo'])
+    rc, o = D.harness_build()
+    if rc != 0:
+        run.broke('harness build', o[-1500:])
+    else:
+        D.correspond(run, 'msg', [], reference_theorem='C02_*_binds (model of Verify for the 4 authenticated kinds)')
+        D.oracle(run, 'msgreal', [])
+    run.cov['rule'] = ('fake-primitive messages of the 4 authenticated kinds: wrong key, wrong external data, other-algorithm key, consumed as another kind, 12 mutation classes (bit flip, truncation, trailing, indefinite, arity, splice, tags, null, byte, drop), COSE_Sign with missing / reordered / no verifiers, empty and null signature lists; '
+                       'real algorithms (ES256/384/512, EdDSA, 4 HMAC, 4 AES-MAC): 24..200 bit flips per message (thorough: every bit of short messages), truncation, extension, external data, other key, other kind, field splices between independently produced messages')
+    return D.finish(run, 'proof')
+
+
+@check('C03')
+def c03(run):
+    run.trusted += MSG_TRUST
+    run.assumptions += ['opens_only_with: a ciphertext opens only under the nonce and additional data it was sealed with (AEAD integrity; exactness of CCM / GCM / ChaCha20-Poly1305 is C12)',
+                        'that no plaintext is placed in the message object after a failed Decrypt is observed on the implementation by the msg stream (the model returns no view on failure)']
+    D.prove(run, extra_targets=['Model/MsgWireCorr.vo'])
+    rc, o = D.harness_build()
+    if rc != 0:
+        run.broke('harness build', o[-1500:])
+    else:
+        D.correspond(run, 'msg', [], reference_theorem='C03_*_binds (model of Decrypt)')
+        D.oracle(run, 'msgreal', [])
+    run.cov['rule'] = ('fake-primitive Encrypt0 / Encrypt messages: IV, Partial IV + Base IV, generated IV; wrong key, wrong external data, mutated encodings (12 classes), Payload inspected after every failed Decrypt; '
+                       '12 real AEAD algorithms: bit flips over ciphertext / IV / protected bytes / tag prefix / array shape, truncation, extension, other key, other kind, splices')
+    return D.finish(run, 'proof')
